@@ -47,6 +47,11 @@ def make_path_fn(spec):
         B = SymBackend(ctx, check_id, params, validate=True)
         try:
             mod.scenario(B, params)
+        except BoundHit as b:
+            if "call depth" in str(b) or "loop" in str(b):
+                # possible non-termination: ask CPython (DESIGN 4.4)
+                B.nontermination_witness(str(b))
+            raise
         except PyExc as e:
             ctx.eng.stats.errors.append(f"uncaught interpreted exception escaped the scenario: {e} params={params}")
             return
